@@ -54,6 +54,12 @@ func planFor(id string) *Plan {
 
 var plans = []Plan{
 	{
+		ID: "C10", Level: "exploration",
+		Rule: "generated client registration (plain / OpenID Connect client with each token_endpoint_auth_method incl. unsupported ones, public or confidential, 0-3 rotated secrets, client ids and secrets with URL-special and non-ASCII characters, real bcrypt) x credential transport (Basic form-encoded, Basic raw, body, both, neither, id only, malformed header, client assertion by registered / unregistered key) x secret relation (current, rotated, wrong, empty, other client's, the stored hash, prefix, extended) x endpoint (token with client_credentials / authorization_code / refresh_token / password / device_code / jwt-bearer, revocation, PAR, device authorization), each request otherwise valid; oracle: necessary condition computed independently (a transport the method permits carried a valid secret or a valid assertion), refused requests must be invalid_client/invalid_request and must not write code/token records (storage recorder), canonical valid credentials must pass. Non-trivial: the client is confidential (the request reaches method gating / secret comparison); distinct by (registration, endpoint, transport, relation).",
+		Jobs: []Job{{Test: "TestC10_ClientAuthentication", Shards: [2]int{16, 16}, Checks: [2]int{300, 8000}, Timeout: [2]int{600, 3000}}},
+	},
+
+	{
 		ID: "C06", Level: "exploration",
 		Rule: "four generated domains: (A) HMAC layer - generated secret configuration (current + 0-3 rotated, optional too-short secret at any position, custom hash, entropy) x minting secret relation (current, rotated, foreign, equal in the first 32 bytes, short secret zero-padded) x one named edit (bit flip in either decoded part, truncation/extension, part swap between tokens, dot/padding/newline/alphabet/trailing-bit re-encodings) compared in both directions with a reference that recomputes the MAC over the decoded parts; (B) end to end - code, access, refresh and device code with one named edit (incl. other random part with a stored signature, foreign secret, prefix changes, secret rotation kept/dropped) presented where it is consumed; (C) JWT access tokens - alg none/None, HS256 keyed with the public key, other key, payload/header edits with the original signature, signature swaps, JSON serialisation - against the storage-backed and the stateless introspector; (D) minting - thousands of values per kind: distinct, configured entropy, no constant byte, no biased bit. Non-trivial: any case with an edit, a non-current minting secret or a short secret configured; distinct by (layer, edit, relation, configuration shape).",
 		Jobs: []Job{
